@@ -88,6 +88,23 @@ def judge(ctx, binp, item, r, st, label, profile):
     else:
         ctx.violation("%s: unexpected harness result %s" % (label, str(r)[:200]), replay)
         return False
+    if slow and not big and not r.get('_retried'):
+        # wall-clock limit: under a heavily loaded machine (load average 50+, parallel builds of other checks) renders that take
+        # 1.4 s alone were seen to exceed 6 s inside a batch.  Re-run the item alone once with the same limit and judge that
+        # result; a hang or a genuinely expensive render exceeds the limit again.
+        lim = LIMIT_MS * (4 if profile == 'debug' else 1)
+        o = ctx.rvh_batch(binp, 'c02-render', ["-\t%s\t%d\t%d\t%s\tlimit=%d" % (doc.replace('\n', ' ').replace('\t', ' '), W, H, rc.ts_str(t), lim)],
+                          per_item_timeout=40, chunk=1)[0]
+        try:
+            r2 = json.loads(o)
+        except (TypeError, ValueError):
+            r2 = {'error': 'unparsable: %s' % str(o)[:100]}
+        r2['_retried'] = True
+        r2['first_attempt'] = {k: v for k, v in r.items() if k in ('crash', 'stderr', 'ms')}
+        st['slow_retried'] = st.get('slow_retried', 0) + 1
+        if 'ok' in r:
+            st['ok'] -= 1
+        return judge(ctx, binp, item, r2, st, label, profile)
     cls = classify(ctx, binp, item)
     replay['class_predicates'] = cls
     what = ("largest single allocation %s bytes > bound %d" % (r.get('largest', 'aborted: ' + r.get('stderr', '')[-80:]), alloc_bound(W, H))) if big \
@@ -429,6 +446,28 @@ def gen_mutant(rng, path):
     return src[:a] + v + src[b:]
 
 
+EXT4_THEOREMS = ['C02_clip_mask_buffers', 'C02_pattern_tile_follows_document', 'C02_filter_results_sized_by_region',
+                 'C02_alloc_sites_classified', 'C02_sites_discharged', 'C02_subregion_clip_total',
+                 'C02_box_blur_line_covered', 'C02_convolve_wrap_terminates', 'C02_iir_loops', 'C02_turbulence_octaves_follow_document']
+def failing_lemmas(res):
+    """names of the lemmas / theorems the Coq errors of a failed build fall into (file, line -> enclosing statement)"""
+    out = []
+    for m in re.finditer(r'File "\./((?:Proofs|Props|Model|Gen)/[\w.]+\.v)", line (\d+)', res.get('log', '')):
+        try:
+            lines = open(os.path.join(vlib.COQ, m.group(1)), encoding='utf-8').read().split('\n')
+        except OSError:
+            continue
+        name = None
+        for ln in lines[:int(m.group(2))]:
+            mm = re.match(r"\s*(?:Theorem|Lemma|Example|Definition|Fixpoint)\s+([\w']+)", ln)
+            if mm:
+                name = mm.group(1)
+        tag = "%s:%s" % (m.group(1), name)
+        if name and tag not in out:
+            out.append(tag)
+    return out
+
+
 def run(ctx):
     global K2
     os.environ['RUST_BACKTRACE'] = '0'     # keep the abort reason in the last stderr lines the batch driver reports
@@ -436,7 +475,10 @@ def run(ctx):
     quick = ctx.tier == 'quick'
     ctx.cov['trusted_base'] = vlib.BASE_TRUSTED + [
         "tiny-skia (rasteriser, stroker, pipeline, Pixmap::new), image decoders, text layout: unmodelled; exercised by the sweep only",
-        "filter kernels, pattern tiles, clip / mask buffers: not modelled in Coq; allocation, time and panics observed by the counting allocator sweep",
+        "clip / mask / nested-image buffers, pattern tile size, filter result sizes, the box / IIR blur, convolve-wrap, octave loop bounds: "
+        "source-derived (tools/gen_c02.py) and proved / refuted in Coq; the arithmetic inside the kernels, lighting, displacement map, "
+        "component transfer: not modelled, observed by the kernel grid and the counting allocator sweep",
+        "Proofs/C02Ledger.v: PReviewed / index_ledger entries are read and argued, not proved",
         "the harness' counting global allocator (harness/src/c02.rs) and its 3 GiB single-allocation cap",
     ]
     ctx.assumptions = [
@@ -452,6 +494,11 @@ def run(ctx):
         pass
     res = ctx.coq_props()
     proof_ok = res['ok'] and not broken
+    cres = res      # `res` is reused by the kernel stages below
+    missing = [t for t in EXT4_THEOREMS if t not in res.get('theorems', [])]
+    if missing and res['ok']:
+        ctx.violation("Props/C02.v no longer states %s" % missing, dict(missing=missing), found_input=False)
+    ctx.cov['failing_lemmas'] = failing_lemmas(res) if not res['ok'] else []
     ctx.coq_build(['Model/Corr.v', 'Model/Render.v'])
     binp, blog = ctx.harness('release')
     if binp is None:
@@ -654,7 +701,7 @@ def run(ctx):
     fixed = ['F06.svg', 'morph-radius.svg', 'offset-huge.svg', 'region-overflow.svg', 'turbulence-frequency.svg',
              'arith-k-overflow.svg', 'arith-k-huge-finite.svg', 'blur-sigma-huge.svg', 'turbulence-frequency-nonfinite.svg',
              'f32bound-convolve-bias.svg', 'f32bound-colormatrix.svg', 'f32bound-transfer-table.svg', 'f32bound-lighting.svg',
-             'turbulence-seed-min.svg', 'turbulence-stitch-octaves.svg']
+             'turbulence-seed-min.svg', 'turbulence-stitch-octaves.svg', 'C02-subregion-translate.svg']
     items = [('@' + os.path.join(wdir, f), 100, 100, (1, 0, 0, 1, 0, 0)) for f in fixed if os.path.exists(os.path.join(wdir, f))]
     dbin, dlog = ctx.harness('debug')
     for prof, b in (('release', binp), ('debug', dbin)):
@@ -795,6 +842,13 @@ def run(ctx):
     # ------------------------------------------------------------------ proofs broken: search
     if not proof_ok:
         found = bool(ctx.violations)
+        if found:
+            # the oracles above produced concrete failing inputs: say which obligation they belong to
+            first = ctx.violations[0]
+            ctx.violation("C02 proof obligations no longer check: %s broken ties %s, failing at %s; concrete failing input: %s"
+                          % (cres['failed'] + cres['audit'], [b['name'] for b in broken], ctx.cov.get('failing_lemmas'), first[0][:300]),
+                          dict(failed_files=cres['failed'], broken_ties=broken, failing_lemmas=ctx.cov.get('failing_lemmas'),
+                               failing_input_replay=first[1], log_tail=cres['log'][-2000:]))
         if not found:
             g = rc.model_search_geometry(ctx, 300 if quick else 3000)
             if g:
@@ -805,11 +859,13 @@ def run(ctx):
                     ctx.violation("model counterexample to %s in the source-derived layer geometry (%d of the sampled boxes fail): %s"
                                   % (name, cnt, json.dumps(d)),
                                   dict(theorem=name, model_input=d, doc=doc, implementation_result=o[:800],
-                                       failed_files=res['failed'], broken_ties=broken))
+                                       failed_files=cres['failed'], broken_ties=broken))
                 found = True
         if not found:
-            ctx.violation("C02 proof obligations no longer check: %s %s" % (res['failed'] + res['audit'], [b['name'] for b in broken]),
-                          dict(failed_files=res['failed'], audit=res['audit'], broken_ties=broken, log_tail=res['log'][-3000:]),
+            ctx.violation("C02 proof obligations no longer check: %s %s failing at %s" % (cres['failed'] + cres['audit'], [b['name'] for b in broken],
+                                                                                     ctx.cov.get('failing_lemmas')),
+                          dict(failed_files=cres['failed'], audit=cres['audit'], broken_ties=broken, failing_lemmas=ctx.cov.get('failing_lemmas'),
+                               log_tail=cres['log'][-3000:]),
                           found_input=False)
 
     ctx.cov['rule'] = ("fit-to-rect: exhaustive small grid + random i32 rectangles incl. extremes; layer-trace: as C14; sweep: corpus files x sampled "
